@@ -15,7 +15,15 @@ use numbat::pretty_print::PrettyPrint;
 use numbat::resolver::{CodeSource, ModulePath, ResolverError};
 use numbat::{Context, FormatOptions, InterpreterSettings, NumbatError};
 
-pub const MODULES_DIR: &str = "/repo/numbat/modules";
+/// Root of the numbat checkout whose module files are read at run time. Always `/repo` for the
+/// registered checks; tooling that tests scratch copies (mutation sweeps) sets `NBSIM_REPO`.
+pub fn repo_root() -> String {
+    std::env::var("NBSIM_REPO").unwrap_or_else(|_| "/repo".to_string())
+}
+
+pub fn modules_dir() -> String {
+    format!("{}/numbat/modules", repo_root())
+}
 pub const STEP_BUDGET: u64 = 3_000_000;
 
 #[derive(Clone, Debug, PartialEq, Eq)]
@@ -44,7 +52,7 @@ pub struct SimImporter {
 impl SimImporter {
     pub fn new() -> Self {
         SimImporter {
-            root: PathBuf::from(MODULES_DIR),
+            root: PathBuf::from(modules_dir()),
             st: Arc::new(Mutex::new(ImpState::default())),
         }
     }
@@ -212,7 +220,7 @@ pub fn install_panic_hook() {
             "<non-string panic>".to_string()
         };
         // strip the absolute prefix so that traces compare across checkouts
-        let loc = loc.replace("/repo/", "");
+        let loc = loc.replace(&format!("{}/", repo_root()), "").replace("/repo/", "");
         LAST_PANIC.with(|p| *p.borrow_mut() = format!("{msg} @ {loc}"));
         if std::env::var_os("NBSIM_SHOW_PANICS").is_some() {
             eprintln!("[panic] {msg} @ {loc}");
